@@ -20,6 +20,11 @@ type WireOpt struct {
 	Small     bool // reduced per-field record set (valid / invalid / wrong type)
 	Depth     int  // nesting depth for message payloads (default 1)
 	NoGeneric bool
+	// NonMinUnknownTag adds an unknown record whose tag is a non-minimal
+	// varint. Only for checks that compare unknown fields up to the encoding of
+	// their tags: the fast path re-encodes the tag, the reflection path keeps
+	// the bytes, and no property constrains that choice.
+	NonMinUnknownTag bool
 }
 
 // EnforceUTF8 is the reference answer to "must this string field be valid
@@ -411,6 +416,10 @@ func WireAlphabet(md protoreflect.MessageDescriptor, o WireOpt) []Rec {
 			Rec{fmt.Sprintf("unk%d:varint", u), cat(tag(u, protowire.VarintType), []byte{7})},
 			Rec{fmt.Sprintf("unk%d:bytes", u), cat(tag(u, protowire.BytesType), lenPrefixed([]byte("u")))},
 		)
+		if o.NonMinUnknownTag {
+			// a legal but non-minimal tag on an unknown record: number, type and payload must survive
+			out = append(out, Rec{fmt.Sprintf("unk%d:nonmintag", u), cat(appendNonMinTag(u, protowire.Fixed32Type), []byte{9, 8, 7, 6})})
+		}
 		if !o.Small {
 			u2 := un[len(un)-1]
 			out = append(out,
